@@ -75,6 +75,7 @@ type vH struct {
 	dialErr   func(k int) error   // outcome of the k-th dial (nil = ok)
 	connSetup func(c *vfake.Conn) // applied to every new conn
 	noMAC     bool
+	ifIndex   int // 0 = a non-existent index
 
 	watchC chan netstate.Change
 	term   atomic.Bool
@@ -139,6 +140,9 @@ func (h *vH) dialFunc() (*system.DialContext, error) {
 	h.mu.Unlock()
 	h.tr.Add(vfake.Event{Kind: "dial", If: h.cfg.Name, ID: k, Gen: c.Gen})
 	ifi := &net.Interface{Index: 4242, Name: h.cfg.Name, MTU: 1500, Flags: net.FlagUp}
+	if h.ifIndex != 0 {
+		ifi.Index = h.ifIndex
+	}
 	if !h.noMAC {
 		ifi.HardwareAddr = vMAC
 	}
